@@ -15,12 +15,15 @@ def parseLineS (c : CaseS) (ts : List String) : CaseS :=
     { c with sprog := c.sprog ++ [.first (natD e) (natD kA) (natD kB) ⟨natD d, natD t, natD k2⟩] }
   | ["snth", e, n, d, t, k2] => { c with sprog := c.sprog ++ [.nth (natD e) (natD n) ⟨natD d, natD t, natD k2⟩] }
   | ["sdedup", e, k, d, t, k2] => { c with sprog := c.sprog ++ [.dedup (natD e) (natD k) ⟨natD d, natD t, natD k2⟩] }
+  | ["stmr", e, k, dt, kt, dc, kc] =>
+    { c with sprog := c.sprog ++ [.tmr (natD e) (natD k) (natD dt) (natD kt) (natD dc) (natD kc)] }
   | _ => { c with base := parseLine c.base ts }
 
 def SRule.ref : SRule → Nat × Nat
   | .first e _ _ em => (e, em.tgt)
   | .nth e _ em => (e, em.tgt)
   | .dedup e _ em => (e, em.tgt)
+  | .tmr e _ _ _ _ _ => (e, e)
 
 def showTok (partOf : Nat → Nat) (x : Ev) : String :=
   let o := match senderOf x.kind with
@@ -32,19 +35,22 @@ def showTok (partOf : Nat → Nat) (x : Ev) : String :=
 def rawLog (partOf : Nat → Nat) (T : Nat) (log : List Ev) (e : Nat) : String :=
   joinSp ((log.filter (fun x => x.tgt == e && x.time ≤ T)).map (showTok partOf))
 
+/-- the deliveries the entities saw: ghosts (cancelled timers, skipped by the code's engine) removed -/
+def liveLog (st : Nat → ESt) (log : List Ev) : List Ev := log.filter (fun e => !isGhost st e)
+
 /-- cross-partition emissions of a sequential log (oldest first): replay the entities -/
 def replaySends (partOf : Nat → Nat) (prog : List (Nat × Nat × Emit)) (sprog : List SRule) (T : Nat)
     (log : List Ev) : List (Nat × Nat × Nat) :=
   ((log.foldl (fun (acc : List (Nat × ESt) × List (Nat × Nat × Nat)) ev =>
       let σ := ((acc.1.find? (·.1 == ev.tgt)).map (·.2)).getD ESt.init
-      let r := ruleStep prog sprog σ ev.tgt ev.kind
+      let r := ruleStep prog sprog σ ev.time ev.tgt ev.kind
       let sends := if ev.time ≤ T then
           (r.2.filter (fun x => partOf x.tgt != partOf ev.tgt)).foldl
             (fun a x => insertUniq (partOf ev.tgt, partOf x.tgt, x.delay) a) acc.2
         else acc.2
       ((ev.tgt, r.1) :: acc.1.filter (·.1 != ev.tgt), sends)) ([], []))).2
 
-def runModelS (strict : Bool) (nparts : Nat) (window : Option Nat) (endT : Nat) (body : List String) :
+def runModelS (start : Nat) (strict : Bool) (nparts : Nat) (window : Option Nat) (endT : Nat) (body : List String) :
     List String :=
   let cs := body.foldl (fun c l => parseLineS c (toks l)) ({} : CaseS)
   let cb := cs.base
@@ -58,29 +64,29 @@ def runModelS (strict : Bool) (nparts : Nat) (window : Option Nat) (endT : Nat) 
   let evs : List Ev := cb.inits.zipIdx.map fun (x, i) => ⟨x.1, i, x.2.1, x.2.2⟩
   let n0 := evs.length
   let fuel := 200000
-  let sq := runSeq h endT fuel (Part.initCtr 0 0 st0 evs n0)
+  let sq := runSeq h endT fuel (Part.initCtr 0 start st0 evs n0)
   if !haltedB h seqRoute false endT sq then ["err Fuel"] else
   let ents := List.range nEnt
-  let seqLines := ents.map fun e => s!"seq {e} {rawLog cfg.part endT sq.log.reverse e}".trimAscii.toString
+  let seqLines := ents.map fun e => s!"seq {e} {rawLog cfg.part endT (liveLog sq.st sq.log.reverse) e}".trimAscii.toString
   let rejected (kind : String) : List String :=
     [s!"err {kind}"] ++ seqLines ++
       (replaySends cfg.part cb.prog cs.sprog endT sq.log.reverse).map fun x => s!"xs {x.1} {x.2.1} {x.2.2}"
   if !cfgV.valid window refs then rejected "ValueError" else
   let parts0 : List (Part (Nat → ESt)) := (List.range nparts).map fun i =>
-    Part.initCtr i 0 st0 (evs.filter fun e => cfg.part e.tgt == i) n0
+    Part.initCtr i start st0 (evs.filter fun e => cfg.part e.tgt == i) n0
   let minLat := (cb.links.map (·.lat)).foldl min ((cb.links.map (·.lat)).headD 0)
   let wEff := match window with
     | some w => wEffOf w
     | none => wEffOf minLat
   if !cb.links.isEmpty && wEff == 0 then ["err Stall"] else
-  let s := parallelRunR h cfg strict fuel wEff endT 100000 parts0
+  let s := parallelRunRFrom h cfg strict fuel wEff endT 100000 start parts0
   if cb.links.isEmpty && !s.parts.all (fun p => haltedB h seqRoute false endT p) then ["err Fuel"] else
   match s.err with
   | some .value => rejected "ValueError"
   | some .runtime => rejected "RuntimeError"
   | some .fuel => ["err Fuel"]
   | none =>
-    let plog := s.parts.flatMap (fun p => p.log.reverse)
+    let plog := s.parts.flatMap (fun p => liveLog p.st p.log.reverse)
     let tt := (s.parts.map (·.tt.length)).sum
     (ents.map fun e => s!"par {e} {rawLog cfg.part endT plog e}".trimAscii.toString) ++ seqLines ++
       [s!"tt {tt}", s!"cross {s.outboxed} {s.injected}", s!"windows {s.windows}"]
@@ -127,7 +133,13 @@ def judgeBlockS (endT : Nat) (body : List String) : List String :=
 def handle (hdr : List String) (body : List String) : List String :=
   match hdr with
   | ["runs", variant, nparts, window, endT] =>
-    runModelS (variant != "current") (natD nparts) (if window == "none" then none else some (natD window))
+    runModelS 0 (variant != "current") (natD nparts) (if window == "none" then none else some (natD window))
+      (optT endT) body
+  | ["runs", variant, nparts, window, endT, start] =>
+    runModelS (natD start) (variant != "current") (natD nparts) (if window == "none" then none else some (natD window))
+      (optT endT) body
+  | ["run", variant, nparts, window, endT, start] =>
+    runModelFrom (natD start) (variant != "current") (natD nparts) (if window == "none" then none else some (natD window))
       (optT endT) body
   | ["judges", endT] => judgeBlockS (optT endT) body
   | _ => Driver.handle hdr body
